@@ -614,11 +614,15 @@ class _Recorder(object):
         self.codes = set()
         self.static = set()
         self.blines = set()
+        self.opc = {}
     def glob(self, frame, event, arg):
         code = frame.f_code
         if code.co_filename.startswith(self.adir):
             if code not in self.codes:
                 self.codes.add(code)
+                for ln, n in thrsched.op_counts(code).items():
+                    if n > self.opc.get((code.co_filename, ln), 0):
+                        self.opc[(code.co_filename, ln)] = n
                 try:
                     for _, _, ln in code.co_lines():
                         if ln is not None:
@@ -639,7 +643,13 @@ class _Recorder(object):
         return self.local
 
 
-def run_sequential(athlib, programs, order):
+def run_epilogue(athlib, epilogue):
+    """Sequential calls made after the threads are gone (no tracing): corruption of shared state that
+    outlives the race shows here even when every racing call happened to return the right answer."""
+    return [make_callable(athlib, cl)() for cl in (epilogue or [])]
+
+
+def run_sequential(athlib, programs, order, epilogue=None):
     """In the current (forked) process: execute calls in `order`; returns outcomes, traces."""
     rec = _Recorder(common.ATHLIB_DIR)
     idx = [0] * len(programs)
@@ -658,21 +668,27 @@ def run_sequential(athlib, programs, order):
             sys.settrace(None)
         traces[t].extend(rec.cur)
         static[t] |= rec.static
-    return outs, traces, (rec.wlines, static, rec.blines)
+    epi = run_epilogue(athlib, epilogue)
+    return outs, traces, (rec.wlines, static, rec.blines, epi, rec.opc)
 
 
-def run_schedule(athlib, programs, sched_spec, step_cap, record=False):
+def run_schedule(athlib, programs, sched_spec, step_cap, record=False, epilogue=None):
     """In the current (forked) process: run the programs under the baton scheduler."""
     plan = {}
     for p in sched_spec['preemptions']:
         key = (os.path.join(common.ATHLIB_DIR, p['file']), p['line'])
-        plan.setdefault(p['thread'], {}).setdefault(key, {})[p['occ']] = p['to']
+        plan.setdefault(p['thread'], {}).setdefault(key, {})[p['occ']] = (p['to'], p['op']) if p.get('op') else p['to']
     progs = [[make_callable(athlib, cl) for cl in prog] for prog in programs]
     s = thrsched.Sched(progs, plan=plan, first=sched_spec['first'], pref=sched_spec['pref'],
                        step_cap=step_cap, athlib_dir=common.ATHLIB_DIR, record=record)
     status = s.run()
+    epi = None
+    if status == 'ok' and epilogue:
+        thrsched._current[0] = None     # a lock left held by a finished thread is an error, not a wait
+        epi = run_epilogue(athlib, epilogue)
     return {'status': status, 'out': s.out, 'switches': s.switches, 'digest': s.digest,
-            'steps': s.nsteps, 'overlap': s.overlap_switches, 'lock_blocks': s.lock_blocks}
+            'steps': s.nsteps, 'overlap': s.overlap_switches, 'lock_blocks': s.lock_blocks, 'epi': epi,
+            'op_switches': s.op_switches}
 
 
 def quiet_stdout():
@@ -688,7 +704,7 @@ def quiet_stdout():
 # ---------------------------------------------------------------------------------------------
 # schedules
 
-SAMPLERS = ('step', 'line', 'write', 'branch', 'static')
+SAMPLERS = ('step', 'line', 'write', 'branch', 'static', 'opcode')
 SAMPLER_WEIGHTS = [('step', 25), ('line', 25), ('write', 25), ('branch', 15), ('static', 10)]
 
 
@@ -703,6 +719,26 @@ def draw_schedule(rng, nthreads, traces, wlines, used=None, focus=None):
         if key not in used or not spec['preemptions']:
             used.add(key)
             return spec
+    return spec
+
+
+def draw_op_schedule(rng, nthreads, traces, wlines, focus=None):
+    """A schedule whose pre-emptions land INSIDE a source line, before its n-th bytecode instruction: a
+    test and the use of what it tested written on one line (`if k in memo: return memo[k]`,
+    `x = memo[k] if k in memo else ...`, `self.i += 1`) opens no window at any line boundary."""
+    for attempt in range(4):
+        spec = _draw_schedule(rng, nthreads, traces, wlines, focus)
+        if spec['preemptions']:
+            break
+    oc = getattr(wlines, 'opcounts', None) or {}
+    some = False
+    for i, p_ in enumerate(spec['preemptions']):
+        if rng.random() < 0.8 or (not some and i == len(spec['preemptions']) - 1):
+            n = oc.get((os.path.join(common.ATHLIB_DIR, p_['file']), p_['line']), 3)
+            if n >= 2:
+                p_['op'] = rng.randint(2, max(2, n))
+                some = True
+    spec['sampler'] = 'opcode'
     return spec
 
 
@@ -803,16 +839,32 @@ def violation_class(programs, accepted, res):
                 return ('wrong-outcome:%s:%s' % (cl['f'], what),
                         {'thread': t, 'call_index': i, 'call': cl, 'got': got,
                          'accepted': sorted(accepted[t][i])})
+    epi_acc = getattr(accepted, 'epi', None)
+    if epi_acc and res.get('epi') is not None:
+        for j, cl in enumerate(accepted.epi_calls):
+            got = res['epi'][j] if j < len(res['epi']) else None
+            if got not in epi_acc[j]:
+                what = got[1] if (got and got[0] == 'exc') else 'value'
+                return ('wrong-outcome-after-the-threads:%s:%s' % (cl['f'], what),
+                        {'epilogue_index': j, 'call': cl, 'got': got, 'accepted': sorted(epi_acc[j])})
     return None
+
+
+class Accepted(list):
+    """accepted[t][i] = outcomes call i of thread t has in some call-atomic sequential order; .epi[j] the same
+    for the j-th epilogue call (made sequentially after all the others), .epi_calls the calls."""
+    epi = None
+    epi_calls = None
 
 
 class WLines(set):
     """the write lines of a scenario, plus .static[t]: every line of every athlib function thread t entered"""
     static = None
     branches = None
+    opcounts = None
 
 
-def oracle(athlib, programs, wall_cap=60.0):
+def oracle(athlib, programs, wall_cap=60.0, epilogue=None):
     """Accepted outcome set per call + per-thread traces, from sequential runs in forks.
 
     traces[t] is the list of *distinct* line traces thread t's program had over all call-atomic
@@ -820,18 +872,26 @@ def oracle(athlib, programs, wall_cap=60.0):
     others it takes the hit / already-built path): the samplers draw positions from any of them.
     """
     lens = [len(p) for p in programs]
-    accepted = [[set() for _ in p] for p in programs]
+    accepted = Accepted([set() for _ in p] for p in programs)
+    accepted.epi_calls = list(epilogue or [])
+    accepted.epi = [set() for _ in accepted.epi_calls]
     traces = [[] for _ in programs]
     wlines = set()
     static = [set() for _ in programs]
     blines = set()
+    opcounts = {}
     norders = 0
     for order in linearizations(lens):
         def job(order=order):
             quiet_stdout()
-            return run_sequential(athlib, programs, order)
-        outs, trs, (wl, st, bl) = common.fork_call(job, wall_cap=wall_cap, what='sequential oracle run')
+            return run_sequential(athlib, programs, order, epilogue)
+        outs, trs, (wl, st, bl, epi, opc) = common.fork_call(job, wall_cap=wall_cap, what='sequential oracle run')
         norders += 1
+        for k_, n_ in opc.items():
+            if n_ > opcounts.get(k_, 0):
+                opcounts[k_] = n_
+        for j, o in enumerate(epi):
+            accepted.epi[j].add(o)
         wlines |= wl
         blines |= bl
         for t in range(len(programs)):
@@ -846,6 +906,7 @@ def oracle(athlib, programs, wall_cap=60.0):
     wlines = WLines(wlines)
     wlines.static = [sorted(x) for x in static]
     wlines.branches = blines
+    wlines.opcounts = opcounts
     return accepted, traces, wlines, norders
 
 
@@ -854,7 +915,8 @@ def scenario_job(athlib, scn, sched_seeds, opts):
     quiet_stdout()
     warm_up(athlib, scn)
     programs = scn['programs']
-    accepted, traces, wlines, norders = oracle(athlib, programs)
+    epilogue = scn.get('epilogue') or []
+    accepted, traces, wlines, norders = oracle(athlib, programs, epilogue=epilogue)
     solo_steps = sum(len(tt[0]) for tt in traces if tt)
     exec_lines = set()
     for tt in traces:
@@ -876,6 +938,7 @@ def scenario_job(athlib, scn, sched_seeds, opts):
     # whose calls execute (or whose functions contain) lines near the difference get 1.5 K schedules, the
     # others K/2, and half of a touching scenario's pre-emptions are placed near the changed lines
     focus = None
+    k_op = len(sched_seeds) // 8        # pre-emptions inside a line: K/8 schedules on top of the K line-level ones
     if CHANGED:
         touched = set()
         for tt in traces:
@@ -885,21 +948,28 @@ def scenario_job(athlib, scn, sched_seeds, opts):
             touched.update(tuple(k2) for k2 in st_ if near_changed(tuple(k2), CHANGED))
         if touched:
             focus = touched
+            k_op = len(sched_seeds) // 3
             cnt.inc('scenarios_touching_changed_lines')
             sched_seeds = list(sched_seeds) + [common.run_seed(PROP, 'extra', sched_seeds[0], j) for j in range(len(sched_seeds) // 2)]
         else:
             # (not K/4: a change at module level - a table, a constant - is executed by no call at all)
             sched_seeds = list(sched_seeds)[:max(2, len(sched_seeds) // 2)]
+    n_line = len(sched_seeds)
+    sched_seeds = list(sched_seeds) + [common.run_seed(PROP, 'op', sched_seeds[0], j) for j in range(max(2, k_op))]
     for k, sseed in enumerate(sched_seeds):
         rng = random.Random(sseed)
-        spec = draw_schedule(rng, len(programs), traces, wlines, used, focus)
-        res = run_one(athlib, programs, spec, step_cap)
-        rd = (rd + common.run_digest_term(sseed, [res['status'], common.canon_outcome(res['out']), res['switches'], res['digest']])) & ((1 << 64) - 1)
+        spec = draw_schedule(rng, len(programs), traces, wlines, used, focus) if k < n_line \
+            else draw_op_schedule(rng, len(programs), traces, wlines, focus)
+        res = run_one(athlib, programs, spec, step_cap, epilogue=epilogue)
+        rd = (rd + common.run_digest_term(sseed, [res['status'], common.canon_outcome(res['out']), res['switches'], res['digest'],
+                                                  common.canon_outcome(res.get('epi'))])) & ((1 << 64) - 1)
         cnt.inc('runs')
+        cnt.inc('epilogue_calls', len(res.get('epi') or []))
         cnt.inc('steps', res['steps'])
         cnt.inc('preemptions_planned', len(spec['preemptions']))
         cnt.inc('preemptions_fired', len([s for s in res['switches'] if s[1] != '<lock>']))
         cnt.inc('preemptions_fired_overlap', res['overlap'])
+        cnt.inc('preemptions_fired_inside_a_line', res.get('op_switches', 0))
         cnt.inc('sampler_' + spec['sampler'])
         cnt.inc('lock_blocks', res['lock_blocks'])
         cnt.inc('status_' + str(res['status']))
@@ -922,10 +992,11 @@ def scenario_job(athlib, scn, sched_seeds, opts):
         if vc is not None:
             cnt.inc('violating_runs')
             if len(violations) < 3 and vc[0] not in [v['class'] for v in violations]:
-                mspec, mprogs, mres, macc = minimise(athlib, programs, spec, accepted, vc[0], step_cap) \
+                mspec, mprogs, mres, macc = minimise(athlib, programs, spec, accepted, vc[0], step_cap, epilogue) \
                     if opts.get('minimise', True) else (spec, programs, res, accepted)
                 vc2 = violation_class(mprogs, macc, mres) or vc
-                violations.append({'class': vc[0], 'detail': vc2[1], 'scenario': dict(scn, programs=mprogs),
+                violations.append({'class': vc[0], 'detail': vc2[1],
+                                   'scenario': dict(scn, programs=mprogs, epilogue=list(macc.epi_calls or [])),
                                    'schedule': mspec, 'digest': mres['digest'], 'switches': mres['switches'],
                                    'sched_seed': sseed, 'minimised_from': {'preemptions': len(spec['preemptions']),
                                                                            'threads': len(programs)}})
@@ -936,9 +1007,9 @@ def scenario_job(athlib, scn, sched_seeds, opts):
             'fnsw': fnsw, 'exec_lines': exec_lines, 'rd': rd}
 
 
-def run_one(athlib, programs, spec, step_cap, wall_cap=40.0):
+def run_one(athlib, programs, spec, step_cap, wall_cap=40.0, epilogue=None):
     def job():
-        return run_schedule(athlib, programs, spec, step_cap)
+        return run_schedule(athlib, programs, spec, step_cap, epilogue=epilogue)
     return common.fork_call(job, wall_cap=wall_cap, what='schedule run')
 
 
@@ -955,17 +1026,32 @@ def _compact(programs, spec):
     return [programs[t] for t in keep], dict(spec, preemptions=pre, pref=pref, first=first)
 
 
-def minimise(athlib, programs, spec, accepted, vclass, step_cap):
+def minimise(athlib, programs, spec, accepted, vclass, step_cap, epilogue=None):
     """Shrink a failing (scenario, schedule): drop pre-emptions, drop threads, cut programs to one
     call - keeping a step only if the *same violation class* persists under a freshly computed
     oracle for the shrunk scenario.  Returns (schedule, programs, result, accepted)."""
+    epi = [list(epilogue or [])]
     def fails(progs, sp, acc=None):
         if acc is None:
-            acc = oracle(athlib, progs)[0]
-        res = run_one(athlib, progs, sp, step_cap)
+            acc = oracle(athlib, progs, epilogue=epi[0])[0]
+        res = run_one(athlib, progs, sp, step_cap, epilogue=epi[0])
         vc = violation_class(progs, acc, res)
         return (vc is not None and vc[0] == vclass), res, acc
     best_p, best_s, best_a, best_r = programs, dict(spec), accepted, None
+    # 0. the epilogue: none at all if the violation shows in a racing call, else the one call that shows it
+    if epi[0]:
+        cands = [[]] if not vclass.startswith('wrong-outcome-after-the-threads') else [[cl] for cl in epi[0]]
+        keep = epi[0]
+        for cand in cands:
+            epi[0] = cand
+            try:
+                ok, res, acc = fails(best_p, best_s)
+            except HarnessError:
+                ok = False
+            if ok:
+                keep = cand; best_a, best_r = acc, res
+                break
+        epi[0] = keep
     # 1. pre-emptions
     i = 0
     while i < len(best_s['preemptions']):
@@ -1010,7 +1096,7 @@ def minimise(athlib, programs, spec, accepted, vclass, step_cap):
         except HarnessError:
             pass
     if best_r is None:
-        best_r = run_one(athlib, best_p, best_s, step_cap)
+        best_r = run_one(athlib, best_p, best_s, step_cap, epilogue=epi[0])
     return best_s, best_p, best_r, best_a
 
 
@@ -1024,9 +1110,35 @@ TIERS = {
 }
 
 
+def gen_epilogue(rng, scn):
+    """Calls made sequentially once every thread has finished: the scenario's own calls again, neighbours
+    of them (other rows of the same tables, other keys of the same caches) and a fresh call or two of the
+    same family.  Shared state that a race left half-built or overwritten answers these wrongly even when
+    every racing call returned the right value."""
+    mine = []
+    for p_ in scn['programs']:
+        for cl in p_:
+            if cl not in mine:
+                mine.append(cl)
+    epi = [cl for cl in mine if rng.random() < 0.75]
+    for _ in range(rng.randint(1, 3)):
+        nc = near_call(rng, rng.choice(mine)) if mine else None
+        if nc is not None:
+            epi.append(nc)
+    grp = scn.get('group')
+    if grp in CATALOGUE:
+        for _ in range(rng.randint(0, 2)):
+            epi.append(pick_call(rng, grp))
+    rng.shuffle(epi)
+    return epi[:7]
+
+
 def scenario_for(master, idx):
     rng = common.rng_for(PROP, master, 'scn', idx)
-    return gen_scenario(rng)
+    scn = gen_scenario(rng)
+    # (a stream of its own: the scenarios are what they were before epilogues existed)
+    scn['epilogue'] = gen_epilogue(common.rng_for(PROP, master, 'epi', idx), scn)
+    return scn
 
 
 def sched_seeds_for(master, idx, k):
@@ -1128,15 +1240,18 @@ def det_fingerprint(athlib, master, idx, k):
     def job():
         quiet_stdout()
         warm_up(athlib, scn)
-        accepted, traces, wlines, norders = oracle(athlib, scn['programs'])
+        epi = scn.get('epilogue') or []
+        accepted, traces, wlines, norders = oracle(athlib, scn['programs'], epilogue=epi)
         import random
         fp = []
         used = set()
         for s in seeds:
             spec = draw_schedule(random.Random(s), len(scn['programs']), traces, wlines, used)
-            res = run_one(athlib, scn['programs'], spec, 300000)
-            fp.append([res['status'], common.canon_outcome(res['out']), res['switches'], res['digest'], res['steps']])
-        return common.digest_of([scn, common.canon_outcome([[sorted(x) for x in a] for a in accepted]), fp])
+            res = run_one(athlib, scn['programs'], spec, 300000, epilogue=epi)
+            fp.append([res['status'], common.canon_outcome(res['out']), res['switches'], res['digest'], res['steps'],
+                       common.canon_outcome(res.get('epi'))])
+        return common.digest_of([scn, common.canon_outcome([[sorted(x) for x in a] for a in accepted]),
+                                 common.canon_outcome([sorted(x) for x in accepted.epi]), fp])
     return common.fork_call(job, wall_cap=300.0, what='det fingerprint %d' % idx)
 
 
@@ -1212,6 +1327,7 @@ def main(tier_, replay=None):
                   'schedules_per_scenario': cfg['k']},
         'faults_fired': {'forced_preemption': cnt.get('preemptions_fired', 0),
                          'forced_preemption_while_other_thread_in_call': cnt.get('preemptions_fired_overlap', 0),
+                         'forced_preemption_inside_a_source_line': cnt.get('preemptions_fired_inside_a_line', 0),
                          'preemptions_planned': cnt.get('preemptions_planned', 0),
                          'cooperative_lock_blocks': cnt.get('lock_blocks', 0)},
         'samplers': {s: cnt.get('sampler_' + s, 0) for s in SAMPLERS},
@@ -1236,7 +1352,8 @@ def main(tier_, replay=None):
     }
     coverage['known_findings_matched'] = len(klines)
     common.write_evidence(PROP, tier_, master, coverage, wall, len(vlines), [
-        'pre-emption granularity is the athlib source line (sys.settrace); races inside one line are not explored',
+        'pre-emption granularity is the athlib source line (sys.settrace) for K schedules per scenario, plus K/8 schedules that pre-empt inside a line before its n-th bytecode instruction (sys.monitoring)',
+        'after the threads of a schedule have finished, 2-7 further calls are made sequentially and judged by the same oracle (corruption that outlives the race)',
         'only frames under athlib/ yield; jsonschema/stdlib code runs atomically between two athlib lines',
         'expected outcomes come from sequential runs of the same tree (refactor-proof, blind to sequential bugs)',
         'fork() of a pristine importer is taken as a fresh process'])
@@ -1267,8 +1384,9 @@ def run_corpus():
             def job():
                 quiet_stdout()
                 warm_up(athlib, scn)
-                accepted, traces, wlines, norders = oracle(athlib, scn['programs'])
-                r = run_one(athlib, scn['programs'], rp['trace'], 300000)
+                epi = scn.get('epilogue') or []
+                accepted, traces, wlines, norders = oracle(athlib, scn['programs'], epilogue=epi)
+                r = run_one(athlib, scn['programs'], rp['trace'], 300000, epilogue=epi)
                 return violation_class(scn['programs'], accepted, r), r
             vc, r = common.fork_call(job, wall_cap=300.0, what='corpus replay')
             res.append((os.path.basename(path), rp, vc, r))
@@ -1294,12 +1412,13 @@ def replay(path):
     def job():
         quiet_stdout()
         warm_up(athlib, scn)
-        accepted, traces, wlines, norders = oracle(athlib, scn['programs'])
-        res = run_one(athlib, scn['programs'], rp['trace'], 300000)
+        epi = scn.get('epilogue') or []
+        accepted, traces, wlines, norders = oracle(athlib, scn['programs'], epilogue=epi)
+        res = run_one(athlib, scn['programs'], rp['trace'], 300000, epilogue=epi)
         return violation_class(scn['programs'], accepted, res), res
     vc, res = common.fork_call(job, wall_cap=300.0, what='replay')
     print('replay: status=%s switches=%s' % (res['status'], res['switches']))
-    print('replay: outcomes=%s' % (res['out'],))
+    print('replay: outcomes=%s epilogue=%s' % (res['out'], res.get('epi')))
     if vc is None:
         print('replay: no violation reproduced (recorded class %s)' % rp['violation']['class'])
         return 0
